@@ -318,12 +318,13 @@ Fixpoint write_nonpad (bs : list block) : result (list Z) :=
   end.
 Definition pad_block (n : Z) : block := mkB 1 (zeros n) (-1).   (* b"\x00" * length: empty for length <= 0 *)
 (* MetadataBlock._writeblocks *)
-Definition writeblocks (bs : list block) (available cont_size : Z) (cb : Z -> Z -> Z) : result (list Z) :=
+Definition writeblocks (bs : list block) (available cont_size : Z) (cb : option (Z -> Z -> Z)) : result (list Z) :=
   match write_nonpad bs with
   | Raise e => Raise e
   | Ok data =>
     let blockssize := zlen data + 4 in
-    let padlen := Z.min (cb (available - blockssize) cont_size) MAXSZ in
+    (* info = PaddingInfo(available - blockssize, cont_size); info._get_padding(padding_func) *)
+    let padlen := Z.min (_get_padding cb (available - blockssize) cont_size) MAXSZ in
     match write_block (pad_block padlen) true with
     | Raise e => Raise e
     | Ok p => Ok (data ++ p) end
@@ -336,7 +337,8 @@ Fixpoint set_vc (bs : list block) (d : list Z) : list block :=
   | b :: r => if is_vcb b then mkB 4 d (bovf b) :: r else b :: set_vc r d
   end.
 
-Record opts := mkOpts { o_cb : Z -> Z -> Z; o_deleteid3 : bool }.
+(* padding=None (no callback: the default policy, Gen.Gen_tags) or a callback on (info.padding, info.size) *)
+Record opts := mkOpts { o_cb : option (Z -> Z -> Z); o_deleteid3 : bool }.
 Definition TAGMAGIC : list Z := [84; 65; 71].
 Definition strip_id3v1 (f : list Z) : list Z :=
   if (128 <=? zlen f) && starts_with TAGMAGIC (zdrop (zlen f - 128) f) then ztake (zlen f - 128) f else f.
@@ -376,7 +378,7 @@ Definition flac_save (f : list Z) (t : vc) (o : opts) : result (list Z) :=
   | Ok bs => flac_save_obj f bs (Some t) o end.
 
 (* FLAC.delete of an object holding bs; nothing happens when the object has no tags *)
-Definition delete_opts : opts := mkOpts (fun _ _ => 0) false.
+Definition delete_opts : opts := mkOpts (Some (fun _ _ => 0)) false.
 Definition flac_delete_obj (f : list Z) (bs : list block) : result (list Z) :=
   if existsb is_vcb bs then flac_save_obj f (filter (fun b => negb (is_vcb b)) bs) None delete_opts else Ok f.
 (* module-level delete(filething) *)
@@ -384,6 +386,16 @@ Definition flac_delete (f : list Z) : result (list Z) :=
   match flac_open f with
   | Raise e => Raise e
   | Ok bs => flac_delete_obj f bs end.
+
+(* ------------------------------------------------------------------ edit histories (C03) *)
+(* an operation is a save of some tags with some padding choice (through a freshly loaded object) or a delete;
+   an operation that raises leaves the file as it is *)
+Inductive flac_op := OpSave (t : vc) (cb : option (Z -> Z -> Z)) | OpDelete.
+Definition flac_step (f : list Z) (o : flac_op) : list Z :=
+  match o with
+  | OpSave t cb => match flac_save f t (mkOpts cb false) with Ok f' => f' | Raise _ => f end
+  | OpDelete => match flac_delete f with Ok f' => f' | Raise _ => f end
+  end.
 
 (* ------------------------------------------------------------------ measurements and the builder *)
 Definition flac_padding (s : flac) : Z := fold_right (fun b a => (if is_pad b then zlen (bdata b) else 0) + a) 0 (fblocks s).
